@@ -39,7 +39,11 @@
    "the actual dictionary".  get_component(False) and get_platform_*_variables(False) invalidate when they hand
    out (the mutators built on them are the operations above); get_components(False) never invalidates.  A write
    through such a reference at any LATER time is LiveWrite / LiveVarWrite (the description changes, the cache does
-   not); Invalidate is invalidate_cache_for_component.  [ok_hist] is the discipline under which they are safe. *)
+   not); Invalidate is invalidate_cache_for_component.  [ok_hist] is the discipline under which they are safe.
+   (c) The other read-only calls (ReadOnly): get_component_configuration in its not fully resolved modes, instance,
+   replicate, validate, copy, the blueprint / environment accessors ...  They build their answers by layering
+   (FlowIR.override_object, in place) and resolving (FlowIR.fill_in, in place) COPIES of the blueprints, variables
+   and components, and they neither read nor fill the cache: no-ops on the state. *)
 From Coq Require Import String Ascii List Bool ZArith Arith Lia.
 Import ListNotations.
 Require Import V.Lib.PyStr V.Lib.JTree V.Conf.Model.
